@@ -193,3 +193,38 @@ impl FileSystem for HarnessFS {
         self.inner.move_dir(src, dest)
     }
 }
+
+
+/// A filesystem without any state: a zero-sized type (a `Box` of it does not allocate).  Every call is refused.
+#[derive(Debug)]
+pub struct UnitFS;
+
+impl FileSystem for UnitFS {
+    fn read_dir(&self, _path: &str) -> VfsResult<Box<dyn Iterator<Item = String> + Send>> {
+        Err(vfs::error::VfsErrorKind::NotSupported.into())
+    }
+    fn create_dir(&self, _path: &str) -> VfsResult<()> {
+        Err(vfs::error::VfsErrorKind::NotSupported.into())
+    }
+    fn open_file(&self, _path: &str) -> VfsResult<Box<dyn vfs::SeekAndRead + Send>> {
+        Err(vfs::error::VfsErrorKind::NotSupported.into())
+    }
+    fn create_file(&self, _path: &str) -> VfsResult<Box<dyn vfs::SeekAndWrite + Send>> {
+        Err(vfs::error::VfsErrorKind::NotSupported.into())
+    }
+    fn append_file(&self, _path: &str) -> VfsResult<Box<dyn vfs::SeekAndWrite + Send>> {
+        Err(vfs::error::VfsErrorKind::NotSupported.into())
+    }
+    fn metadata(&self, _path: &str) -> VfsResult<vfs::VfsMetadata> {
+        Err(vfs::error::VfsErrorKind::NotSupported.into())
+    }
+    fn exists(&self, _path: &str) -> VfsResult<bool> {
+        Err(vfs::error::VfsErrorKind::NotSupported.into())
+    }
+    fn remove_file(&self, _path: &str) -> VfsResult<()> {
+        Err(vfs::error::VfsErrorKind::NotSupported.into())
+    }
+    fn remove_dir(&self, _path: &str) -> VfsResult<()> {
+        Err(vfs::error::VfsErrorKind::NotSupported.into())
+    }
+}
